@@ -10,7 +10,8 @@ def build(repo, outdir, contracts=True):
     prelude = open(os.path.join(V, 'contracts/parser_prelude.rs')).read()
     stubs = open(os.path.join(V, 'contracts/parser_stubs.rs')).read()
     fns, loops = weave.parse_spec(open(os.path.join(V, 'contracts/parser.spec')).read()) if contracts else ({}, {})
-    text, linemap, info = weave.assemble(ex, prelude, fns, loops, stubs)
+    top = open(os.path.join(V, 'contracts/parser_top.rs')).read() if contracts else None
+    text, linemap, info = weave.assemble(ex, prelude, fns, loops, stubs, top)
     os.makedirs(outdir, exist_ok=True)
     open(os.path.join(outdir, 'unit.rs'), 'w').write(text)
     json.dump(linemap, open(os.path.join(outdir, 'LINEMAP.json'), 'w'))
